@@ -55,11 +55,10 @@ def parse_assumptions(log):
             cur = []
             res.append(cur)
         elif cur is not None:
-            m = re.match(r"^([A-Za-z_][A-Za-z0-9_.']*)\s*:", line)
-            if m:
+            # an axiom name starts a line in column 0; its type follows after ':' on the same or the next lines
+            m = re.match(r"^([A-Za-z_][A-Za-z0-9_.']*)\s*(:|$)", line)
+            if m and not line.startswith("File "):
                 cur.append(m.group(1))
-            elif line.strip() == "":
-                pass
     return res
 
 
